@@ -356,16 +356,15 @@ class _MessageDB(_Entity):
 
         elif idx:
             msg_dict = {
-                k: v for d in msg.payload for k, v in d.items() if d[idx] == val
+                k: v for d in msg.payload for k, v in d.items() if d.get(idx) == val
             }
         else:
             # TODO: this isn't ideal: e.g. a controller is being treated like a 'stat
             # .I 101 --:------ --:------ 12:126457 2309 006 0107D0-0207D0  # is a CTL
             msg_dict = msg.payload[0]
 
-        assert (not domain_id and not zone_idx) or (
-            msg_dict.get(idx) == val
-        ), f"{msg_dict} < Coding error: key={idx}, val={val}"
+        if idx and msg_dict.get(idx) != val:  # msg has nothing for this zone/domain
+            return None
 
         if key:
             return msg_dict.get(key)
